@@ -236,3 +236,190 @@ Definition slot_valid (b : bracket) (sl : slot_in_rung) : bool :=
       end
   end.
 End Bracket.
+
+(* ------------------------------------------------------------------ *)
+(* (2b) the synchronous scheduler shell:                                 *)
+(*   hyperband_bracket.py  SynchronousBracket.next_free_slot             *)
+(*   hyperband_bracket_manager.py  _create_new_bracket, next_job,        *)
+(*                                 on_result (primary bracket advance)   *)
+(*   hyperband.py  SynchronousHyperbandScheduler._suggest,               *)
+(*                 on_trial_result (bracket part), on_trial_error        *)
+(* ------------------------------------------------------------------ *)
+Section SyncShell.
+Variable promote : list slot -> nat -> list Z.
+Variable bracket_rungs : list (list (nat * Z)).      (* rung systems per bracket offset: (size, level) *)
+
+Definition new_bracket (rs : list (nat * Z)) : bracket :=
+  match rs with
+  | [] => {| rungs_done := []; cur := None; future := []; first_free := 0 |}
+  | (size, lvl) :: fut => {| rungs_done := []; cur := Some (repeat (None, None) size, lvl); future := fut; first_free := 0 |}
+  end.
+
+(* SynchronousBracket.next_free_slot *)
+Definition next_free_slot (b : bracket) : option (slot_in_rung * bracket) :=
+  match cur b with
+  | None => None
+  | Some (rung, milestone) =>
+      match nth_error rung (first_free b) with
+      | None => None
+      | Some (tid, _) =>
+          Some ({| s_rung := current_rung b; s_level := milestone; s_index := first_free b; s_trial := tid; s_metric := None |},
+                {| rungs_done := rungs_done b; cur := cur b; future := future b; first_free := S (first_free b) |})
+      end
+  end.
+
+Record manager := { m_brackets : list bracket; m_primary : nat }.
+
+Definition create_new_bracket (bs : list bracket) : list bracket :=
+  bs ++ [new_bracket (nth (Nat.modulo (length bs) (length bracket_rungs)) bracket_rungs [])].
+
+(* for bracket_id in range(primary, next_bracket_id): first bracket with a free slot *)
+Fixpoint scan_free (bs : list bracket) (i : nat) : option (nat * slot_in_rung * bracket) :=
+  match bs with
+  | [] => None
+  | b :: rest => match next_free_slot b with
+                 | Some (sl, b') => Some (i, sl, b')
+                 | None => scan_free rest (S i)
+                 end
+  end.
+
+Inductive merr := MNoFreeSlotInNewBracket | MBracketId | MBracket (e : serr) | MAlreadyPending | MTrialMismatch | MSkippedLevel.
+Inductive mres (A : Type) := MOk (a : A) | MError (e : merr).
+Arguments MOk {A} a.
+Arguments MError {A} e.
+
+(* SynchronousHyperbandBracketManager.next_job *)
+Definition next_job (m : manager) : mres (manager * nat * slot_in_rung) :=
+  match scan_free (skipn (m_primary m) (m_brackets m)) (m_primary m) with
+  | Some (bid, sl, b') => MOk ({| m_brackets := set_nth (m_brackets m) bid b'; m_primary := m_primary m |}, bid, sl)
+  | None =>
+      let bs := create_new_bracket (m_brackets m) in
+      let bid := length (m_brackets m) in
+      match nth_error bs bid with
+      | None => MError MNoFreeSlotInNewBracket
+      | Some b => match next_free_slot b with
+                  | None => MError MNoFreeSlotInNewBracket
+                  | Some (sl, b') => MOk ({| m_brackets := set_nth bs bid b'; m_primary := m_primary m |}, bid, sl)
+                  end
+      end
+  end.
+
+Definition is_complete (b : bracket) : bool := match cur b with None => true | Some _ => false end.
+
+(* while bracket.is_bracket_complete() and primary < last: primary += 1 *)
+Fixpoint advance_primary (bs : list bracket) (p : nat) (fuel : nat) : nat :=
+  match fuel with
+  | O => p
+  | S f => match nth_error bs p with
+           | Some b => if is_complete b && Nat.ltb p (length bs - 1) then advance_primary bs (S p) f else p
+           | None => p
+           end
+  end.
+
+(* SynchronousHyperbandBracketManager.on_result *)
+Definition manager_on_result (m : manager) (bid : nat) (r : slot_in_rung) : mres manager :=
+  if negb (Nat.leb (m_primary m) bid && Nat.ltb bid (length (m_brackets m))) then MError MBracketId
+  else match nth_error (m_brackets m) bid with
+       | None => MError MBracketId
+       | Some b =>
+           match bracket_on_result promote b r with
+           | SError e => MError (MBracket e)
+           | SOk b' =>
+               let bs := set_nth (m_brackets m) bid b' in
+               if Nat.eqb bid (m_primary m) then
+                 let p := advance_primary bs (m_primary m) (length bs) in
+                 match nth_error bs p with
+                 | Some bp => if is_complete bp then MOk {| m_brackets := create_new_bracket bs; m_primary := length bs |}
+                              else MOk {| m_brackets := bs; m_primary := p |}
+                 | None => MOk {| m_brackets := bs; m_primary := p |}
+                 end
+               else MOk {| m_brackets := bs; m_primary := m_primary m |}
+           end
+       end.
+
+Record shell := { sh_mgr : manager; sh_pending : list (Z * (nat * slot_in_rung)) }.
+
+Definition with_trial (sl : slot_in_rung) (t : option Z) (m : option mval) : slot_in_rung :=
+  {| s_rung := s_rung sl; s_level := s_level sl; s_index := s_index sl; s_trial := t; s_metric := m |}.
+
+(* events of the tuner as far as the bracket bookkeeping is concerned *)
+Inductive sevent :=
+| SSuggest (tid : Z) (config_ok : bool)    (* suggest(tid); config_ok = the searcher returned a configuration *)
+| SReport (t : Z) (r : Z) (v : Q)           (* on_trial_result at resource r *)
+| SFail (t : Z).                            (* on_trial_error *)
+
+Definition shell_step (st : shell) (e : sevent) : mres shell :=
+  match e with
+  | SSuggest tid config_ok =>
+      match next_job (sh_mgr st) with
+      | MError e => MError e
+      | MOk (m', bid, sl) =>
+          match s_trial sl with
+          | Some t' =>    (* paused trial to be resumed *)
+              match lookup t' (sh_pending st) with
+              | Some _ => MError MAlreadyPending
+              | None => MOk {| sh_mgr := m'; sh_pending := sh_pending st ++ [(t', (bid, sl))] |}
+              end
+          | None =>
+              if config_ok then
+                match lookup tid (sh_pending st) with
+                | Some _ => MError MAlreadyPending
+                | None => MOk {| sh_mgr := m'; sh_pending := sh_pending st ++ [(tid, (bid, with_trial sl (Some tid) None))] |}
+                end
+              else   (* searcher failed to suggest: the slot is reported as failed *)
+                match manager_on_result m' bid (with_trial sl None (Some MNaN)) with
+                | MError e => MError e
+                | MOk m'' => MOk {| sh_mgr := m''; sh_pending := sh_pending st |}
+                end
+          end
+      end
+  | SReport t r v =>
+      match lookup t (sh_pending st) with
+      | None => MOk st                      (* not pending: decision STOP, result not used *)
+      | Some (bid, sl) =>
+          if negb (opt_eqb Z.eqb (s_trial sl) (Some t)) then MError MTrialMismatch
+          else if s_level sl <=? r then
+            if negb (r =? s_level sl) then MError MSkippedLevel
+            else match manager_on_result (sh_mgr st) bid (with_trial sl (s_trial sl) (Some (MVal v))) with
+                 | MError e => MError e
+                 | MOk m' => MOk {| sh_mgr := m'; sh_pending := filter (fun e => negb (fst e =? t)) (sh_pending st) |}
+                 end
+          else MOk st
+      end
+  | SFail t =>
+      match lookup t (sh_pending st) with
+      | None => MOk st
+      | Some (bid, sl) =>
+          match manager_on_result (sh_mgr st) bid (with_trial sl (s_trial sl) (Some MNaN)) with
+          | MError e => MError e
+          | MOk m' => MOk {| sh_mgr := m'; sh_pending := filter (fun e => negb (fst e =? t)) (sh_pending st) |}
+          end
+      end
+  end.
+
+Fixpoint shell_run (st : shell) (h : list sevent) : mres shell :=
+  match h with
+  | [] => MOk st
+  | e :: h' => match shell_step st e with MOk st' => shell_run st' h' | MError e => MError e end
+  end.
+
+Definition shell_init : shell :=
+  {| sh_mgr := {| m_brackets := create_new_bracket []; m_primary := 0 |}; sh_pending := [] |}.
+
+(* what the tuner protocol guarantees: suggest is called with a trial id never used before
+   ([bound] = backend.new_trial_id()), a trial does not report beyond the level it runs to *)
+Definition slegal (st : shell) (bound : Z) (e : sevent) : bool :=
+  match e with
+  | SSuggest tid _ => bound <=? tid
+  | SReport t r _ => match lookup t (sh_pending st) with Some (_, sl) => r <=? s_level sl | None => true end
+  | SFail _ => true
+  end.
+Definition next_bound (bound : Z) (e : sevent) : Z :=
+  match e with SSuggest tid _ => tid + 1 | _ => bound end.
+Fixpoint slegal_hist (st : shell) (bound : Z) (h : list sevent) : Prop :=
+  match h with
+  | [] => True
+  | e :: h' => slegal st bound e = true /\
+               match shell_step st e with MOk st' => slegal_hist st' (next_bound bound e) h' | MError _ => True end
+  end.
+End SyncShell.
